@@ -11,7 +11,8 @@
  *   T tools dumpcell <dims> <k>                                => coordinates of the k-th value printed by hdp dumpsds -d
  *   T tools import_shape <nplanes> <nrows> <ncols>             => shape of the SDS hdfimport creates | fail
  * Implementation oracles (no model): hdiff F F = 0; single-point mutations F' (one element of one SDS / Vdata / image,
- * one attribute value, one added object) => hdiff F F' and hdiff F' F exit 1; the numbers printed by
+ * one SDS / dimension / image / vdata / vdata-field / vgroup / SD-file / GR-file attribute value, one added object)
+ * => hdiff F F' and hdiff F' F exit 1; the numbers printed by
  * hdp dumpsds / dumpvd / dumpgr -d equal what SDreaddata / VSread / GRreadimage return; hdfimport output values equal
  * the numeric input (text and binary, ranks 2 and 3).
  */
@@ -387,9 +388,105 @@ static const char *mutate(const char *path, tg_spec_t *s, int kind, char *desc, 
                 return "gr-element";
             }
         }
+        case 5: { /* one value of a vdata-level attribute (VSsetattr, _HDF_VDATA) */
+            for (i = 0; i < s->nvs; i++) if (s->vs[i].nattr > 0) break;
+            if (i == s->nvs) return NULL;
+            {
+                tg_vs_t *v = &s->vs[i];
+                int32 f = Hopen(path, DFACC_WRITE, 0), id; tg_attr_t a = v->attr[0];
+                Vstart(f);
+                id = VSattach(f, VSfind(f, v->name), "w");
+                a.data[0] ^= 1;
+                if (VSsetattr(id, _HDF_VDATA, a.name, a.nt, a.count, a.data) == FAIL) hk_fail("generator", "VSsetattr (mutation) failed");
+                VSdetach(id); Vend(f); Hclose(f);
+                snprintf(desc, cap, "vdata attribute %s of vdata %s (type %d)", a.name, v->name, (int)a.nt);
+                return "vdata-attribute";
+            }
+        }
+        case 6: { /* the attribute of one vdata field */
+            int j = 0, found = 0;
+            for (i = 0; i < s->nvs && !found; i++) for (j = 0; j < s->vs[i].nfld; j++) if (s->vs[i].fattr[j]) { found = 1; break; }
+            if (!found) return NULL;
+            i--;
+            {
+                tg_vs_t *v = &s->vs[i];
+                int32 f = Hopen(path, DFACC_WRITE, 0), id, val = 2000 + j;
+                Vstart(f);
+                id = VSattach(f, VSfind(f, v->name), "w");
+                if (VSsetattr(id, j, "fieldatt", DFNT_INT32, 1, &val) == FAIL) hk_fail("generator", "VSsetattr field (mutation) failed");
+                VSdetach(id); Vend(f); Hclose(f);
+                snprintf(desc, cap, "attribute fieldatt of field %d of vdata %s", j, v->name);
+                return "vdata-field-attribute";
+            }
+        }
+        case 7: { /* one value of a vgroup attribute */
+            for (i = 0; i < s->nvg; i++) if (s->vg[i].nattr > 0) break;
+            if (i == s->nvg) return NULL;
+            {
+                tg_vg_t *g = &s->vg[i];
+                int32 f = Hopen(path, DFACC_WRITE, 0), id; tg_attr_t a = g->attr[0];
+                Vstart(f);
+                id = Vattach(f, Vfind(f, g->name), "w");
+                a.data[0] ^= 1;
+                if (Vsetattr(id, a.name, a.nt, a.count, a.data) == FAIL) hk_fail("generator", "Vsetattr (mutation) failed");
+                Vdetach(id); Vend(f); Hclose(f);
+                snprintf(desc, cap, "attribute %s of vgroup %s (type %d)", a.name, g->name, (int)a.nt);
+                return "vgroup-attribute";
+            }
+        }
+        case 8: { /* a dimension attribute of an SDS (SDsetdimstrs) */
+            int j = 0, found = 0;
+            for (i = 0; i < s->nsds && !found; i++) for (j = 0; j < s->sds[i].rank; j++) if (s->sds[i].dimattr[j]) { found = 1; break; }
+            if (!found) return NULL;
+            i--;
+            {
+                tg_sds_t *d = &s->sds[i];
+                int32 sd = SDstart(path, DFACC_WRITE), id = SDselect(sd, SDnametoindex(sd, d->name)), dim = SDgetdimid(id, j);
+                if (SDsetdimstrs(dim, "dlabeX", "dunit", "dformat") == FAIL) hk_fail("generator", "SDsetdimstrs (mutation) failed");
+                SDendaccess(id); SDend(sd);
+                snprintf(desc, cap, "label of dimension %d (%s) of SDS %s", j, d->dimname[j], d->name);
+                return "sds-dim-attribute";
+            }
+        }
+        case 9: { /* one value of an image attribute */
+            for (i = 0; i < s->ngr; i++) if (s->gr[i].nattr > 0) break;
+            if (i == s->ngr) return NULL;
+            {
+                tg_gr_t *g = &s->gr[i];
+                int32 f = Hopen(path, DFACC_WRITE, 0), gr = GRstart(f), id = GRselect(gr, GRnametoindex(gr, g->name)); tg_attr_t a = g->attr[0];
+                a.data[0] ^= 1;
+                if (GRsetattr(id, a.name, a.nt, a.count, a.data) == FAIL) hk_fail("generator", "GRsetattr (mutation) failed");
+                GRendaccess(id); GRend(gr); Hclose(f);
+                snprintf(desc, cap, "attribute %s of image %s (type %d)", a.name, g->name, (int)a.nt);
+                return "gr-attribute";
+            }
+        }
+        case 10: { /* one value of an SD file attribute */
+            if (s->nsdattr == 0) return NULL;
+            {
+                int32 sd = SDstart(path, DFACC_WRITE); tg_attr_t a = s->sdattr[0];
+                a.data[0] ^= 1;
+                if (SDsetattr(sd, a.name, a.nt, a.count, a.data) == FAIL) hk_fail("generator", "SDsetattr file (mutation) failed");
+                SDend(sd);
+                snprintf(desc, cap, "SD file attribute %s (type %d)", a.name, (int)a.nt);
+                return "sd-file-attribute";
+            }
+        }
+        case 11: { /* one value of a GR file attribute */
+            if (s->ngrattr == 0) return NULL;
+            {
+                int32 f = Hopen(path, DFACC_WRITE, 0), gr = GRstart(f); tg_attr_t a = s->grattr[0];
+                a.data[0] ^= 1;
+                if (GRsetattr(gr, a.name, a.nt, a.count, a.data) == FAIL) hk_fail("generator", "GRsetattr file (mutation) failed");
+                GRend(gr); Hclose(f);
+                snprintf(desc, cap, "GR file attribute %s (type %d)", a.name, (int)a.nt);
+                return "gr-file-attribute";
+            }
+        }
     }
     return NULL;
 }
+#define NMUT 12
 
 static void oracle_mutations(int k)
 {
@@ -410,9 +507,14 @@ static void oracle_mutations(int k)
     if (rc != 0) hk_fail("hdiff-not-reflexive", "hdiff F F exits %d", rc);
     hk_stat("reflexive", 1);
     tie_match(f, f, log);
-    kind = (int)hk_range(0, 4);
+    /* a random kind; when the file has no such object, the next applicable kind */
+    kind = (int)hk_range(0, NMUT - 1);
     if (copy_file(f, g)) goto done;
-    what = mutate(g, &spec, kind, desc, sizeof desc);
+    {
+        int t;
+        what = NULL;
+        for (t = 0; t < NMUT && !what; t++) what = mutate(g, &spec, (kind + t) % NMUT, desc, sizeof desc);
+    }
     if (!what) goto done;
     hk_stat(what, 1);
     {
